@@ -81,7 +81,7 @@ impl<'a> TrafficGen<'a> {
                     return None;
                 }
                 let h = *rng.pick(&hs);
-                let args = self.sg.args_for(rng, h, 0);
+                let args = self.sg.args_for(rng, &c.cid, h, 0);
                 let funds = match rng.below(6) {
                     0 => vec![Coin::new(rng.range(1, 40) as u128, "ucoin")],
                     1 => vec![Coin::new(rng.range(1, 9) as u128, "uatom"), Coin::new(3u128, "ucoin")],
@@ -101,7 +101,7 @@ impl<'a> TrafficGen<'a> {
                     return None;
                 }
                 let h = *rng.pick(&hs);
-                let args = self.sg.args_for(rng, h, 0);
+                let args = self.sg.args_for(rng, &c.cid, h, 0);
                 Some(Op::Query {
                     target: c.addr.clone(),
                     msg: Doc::json(&doc_for(h, &args)),
@@ -114,7 +114,7 @@ impl<'a> TrafficGen<'a> {
                     return None;
                 }
                 let h = *rng.pick(&hs);
-                let args = self.sg.args_for(rng, h, 0);
+                let args = self.sg.args_for(rng, &c.cid, h, 0);
                 Some(Op::Sudo {
                     target: c.addr.clone(),
                     msg: Doc::json(&doc_for(h, &args)),
@@ -132,7 +132,7 @@ impl<'a> TrafficGen<'a> {
                     return None;
                 }
                 let h = hs[0];
-                let args = self.sg.args_for(rng, h, 0);
+                let args = self.sg.args_for(rng, &c.cid, h, 0);
                 let sender = if rng.chance(3, 4) { accounts[3].clone() } else { rng.pick(accounts).clone() };
                 Some(Op::Migrate {
                     target: c.addr.clone(),
@@ -149,7 +149,7 @@ impl<'a> TrafficGen<'a> {
                     return None;
                 }
                 let h = e.spec.of_kind(Kind::Instantiate).next()?;
-                let args = self.sg.args_for(rng, h, 0);
+                let args = self.sg.args_for(rng, e.spec.cid, h, 0);
                 Some(Op::Instantiate {
                     code,
                     sender: rng.pick(accounts).clone(),
@@ -445,7 +445,7 @@ fn doc_of_kind(rng: &mut Rng, tg: &mut TrafficGen, c: &ContractInfo, k: Kind) ->
                 return None;
             }
             let h = *rng.pick(&hs);
-            let args = tg.sg.args_for(rng, h, 2);
+            let args = tg.sg.args_for(rng, &c.cid, h, 2);
             Some((doc_for(h, &args), h.id()))
         }
     }
